@@ -245,6 +245,12 @@ func (en *Engine) checkProperty(id, tier, verif, workdir string, t0 time.Time) i
 			}
 			continue
 		}
+		if d.Res.Verdict == "sat" && d.O.Kind == "invariant" {
+			// a loop invariant is a proof artifact: one that is not established or not preserved any more means the proof of
+			// the unit has to be redone, not that a property is violated
+			undecided = append(undecided, fmt.Sprintf("%s: loop invariant no longer inductive (proof artifact; not a counterexample)", d.O.Name))
+			continue
+		}
 		if d.Res.Verdict == "sat" && d.O.Info["approx"] != "" {
 			// the path crossed an over-approximation (a loop without invariant): the model is not a counterexample of the code
 			undecided = append(undecided, fmt.Sprintf("%s: proof failed behind an over-approximation (%s); not a counterexample", d.O.Name, d.O.Info["approx"]))
